@@ -54,3 +54,127 @@ Theorem C02_line_end_to_end :
     0 <= h < 2 ^ 16 /\ operands16 name args = Some ops /\ legal16 name ops = true /\ denote16 name ops = Some c /\ decode16 h = Some c.
 Proof. exact EndToEnd.c_line_end_to_end. Qed.
 Print Assumptions C02_line_end_to_end.
+
+(* From the TEXT (second sentence of C02): every legal, non-hint, non-reserved RV32C integer encoding is produced by assembling its
+   canonical text.  h ranges over all 65 536 halfwords; `decode16 h = Some c` says h is a legal RV32C integer encoding of c (Spec/RVC.v:
+   the all-zero halfword, reserved encodings, HINTs, NSE, floating-point and RV64/128-only encodings decode to None).
+   `ctext c` (Spec/Print16.v, written from the instruction reference, independent of the assembler) is the canonical token line:
+   mnemonic `c.xxx`, registers `xN`, immediates in decimal with a leading '-' when negative -- c.lui with the SIGNED 6-bit value;
+   c.lw / c.sw in the documented three-operand form; scaled immediates (c.addi4spn, c.addi16sp, c.lwsp, c.swsp, c.lw, c.sw) as byte
+   values; c.j / c.jal / c.beqz / c.bnez with the byte offset as a literal.  `cline c` is that line written the usual way
+   ("c.addi x5, -3").  Then, at any line (file name, number) and with compression off AND on:
+     (1) the lexer model reads `cline c` as the tokens `ctext c`;
+     (2) the parser model turns the tokens into an item that the 16 passes of the pass model assemble to EXACTLY the two bytes of h,
+         low byte first, and nothing else (no constants, no labels);
+     (3) hence the one-line program `cline c` assembles to these two bytes;
+     (4) and so does the same token line in ANY separator style (indentation, blanks / tabs / commas between tokens, trailing blanks,
+         trailing # comment -- Proofs/LexSep.v style_ok).
+   No restriction on h or c beyond `decode16 h = Some c`. *)
+From BB Require Import Spec.Print16 Model.Lexer Proofs.LexSep Proofs.Program Proofs.TextConverse.
+Theorem C02_text_converse :
+  forall (l : Items.line) (cmp : bool) h c, 0 <= h < 65536 -> decode16 h = Some c ->
+    let bytes := {| Passes.r_chunks := [(l, Passes.CBytes [h mod 256; h / 256])]; Passes.r_consts := []; Passes.r_labels := [] |} in
+    Lexer.lex_tokens (cline c) = Some (ctext c) /\
+    (exists it, Parser.parse_item l (ctext c) = Parser.FOk it /\ Passes.assemble_items [(l, it)] [] [] cmp = Passes.Done bytes) /\
+    Program.assemble_text [(l, cline c)] [] [] cmp = Program.TDone bytes /\
+    (forall sty, LexSep.style_ok sty (map chars (ctext c)) ->
+       Program.assemble_text [(l, unchars (LexSep.render sty (map chars (ctext c))))] [] [] cmp = Program.TDone bytes).
+Proof. exact TextConverse.text_converse. Qed.
+Print Assumptions C02_text_converse.
+
+(* ... so canonical texts and legal halfwords correspond one-to-one: two legal halfwords with the same canonical text are equal
+   (and a halfword determines its text through decode16) *)
+Theorem C02_text_injective :
+  forall h1 h2 c1 c2, 0 <= h1 < 65536 -> 0 <= h2 < 65536 -> decode16 h1 = Some c1 -> decode16 h2 = Some c2 ->
+    ctext c1 = ctext c2 -> h1 = h2 /\ c1 = c2.
+Proof. exact TextConverse.ctext_injective. Qed.
+Print Assumptions C02_text_injective.
+
+(* non-vacuity, both ways: the halfword decodes to the instruction, whose canonical tokens / line are the text shown; and the text
+   lexes to the tokens and assembles (compression off and on) to the two bytes b0 b1 of the halfword.  One example per format. *)
+Definition C02_text_case (h : Z) (c : cinstr) (toks : list string) (text : string) (b0 b1 : Z) : Prop :=
+  let l := {| Items.lfile := "<string>"; Items.lnum := 1 |} in
+  let bytes := {| Passes.r_chunks := [(l, Passes.CBytes [b0; b1])]; Passes.r_consts := []; Passes.r_labels := [] |} in
+  h = b0 + 256 * b1 /\ decode16 h = Some c /\ ctext c = toks /\ cline c = text /\
+  Lexer.lex_tokens text = Some toks /\
+  Program.assemble_text [(l, text)] [] [] false = Program.TDone bytes /\ Program.assemble_text [(l, text)] [] [] true = Program.TDone bytes.
+Example C02_text_ex_nop : C02_text_case 0x0001 CNop ["c.nop"] "c.nop" 0x01 0x00.
+Proof. vm_compute. repeat split. Qed.
+Example C02_text_ex_addi : C02_text_case 0x12f5 (CAddi 5 (-3)) ["c.addi"; "x5"; "-3"] "c.addi x5, -3" 0xf5 0x12.              (* CI *)
+Proof. vm_compute. repeat split. Qed.
+Example C02_text_ex_lui : C02_text_case 0x72fd (CLui 5 (-1)) ["c.lui"; "x5"; "-1"] "c.lui x5, -1" 0xfd 0x72.                   (* CI, signed value *)
+Proof. vm_compute. repeat split. Qed.
+Example C02_text_ex_addi16sp : C02_text_case 0x7101 (CAddi16sp (-512)) ["c.addi16sp"; "-512"] "c.addi16sp -512" 0x01 0x71.  (* scaled *)
+Proof. vm_compute. repeat split. Qed.
+Example C02_text_ex_addi4spn : C02_text_case 0x1fe0 (CAddi4spn 8 1020) ["c.addi4spn"; "x8"; "1020"] "c.addi4spn x8, 1020" 0xe0 0x1f.  (* CIW *)
+Proof. vm_compute. repeat split. Qed.
+Example C02_text_ex_lw : C02_text_case 0x40c0 (CLw 8 9 4) ["c.lw"; "x8"; "x9"; "4"] "c.lw x8, x9, 4" 0xc0 0x40.                 (* CL *)
+Proof. vm_compute. repeat split. Qed.
+Example C02_text_ex_swsp : C02_text_case 0xdf82 (CSwsp 0 252) ["c.swsp"; "x0"; "252"] "c.swsp x0, 252" 0x82 0xdf.              (* CSS *)
+Proof. vm_compute. repeat split. Qed.
+Example C02_text_ex_j : C02_text_case 0xb001 (CJ (-2048)) ["c.j"; "-2048"] "c.j -2048" 0x01 0xb0.                              (* CJ *)
+Proof. vm_compute. repeat split. Qed.
+Example C02_text_ex_beqz : C02_text_case 0xd001 (CBeqz 8 (-256)) ["c.beqz"; "x8"; "-256"] "c.beqz x8, -256" 0x01 0xd0.         (* CB *)
+Proof. vm_compute. repeat split. Qed.
+Example C02_text_ex_mv : C02_text_case 0x808a (CMv 1 2) ["c.mv"; "x1"; "x2"] "c.mv x1, x2" 0x8a 0x80.                          (* CR *)
+Proof. vm_compute. repeat split. Qed.
+Example C02_text_ex_and : C02_text_case 0x8c65 (CAnd 8 9) ["c.and"; "x8"; "x9"] "c.and x8, x9" 0x65 0x8c.                      (* CA *)
+Proof. vm_compute. repeat split. Qed.
+Example C02_text_ex_jalr : C02_text_case 0x9082 (CJalr 1) ["c.jalr"; "x1"] "c.jalr x1" 0x82 0x90.                              (* CR, one register *)
+Proof. vm_compute. repeat split. Qed.
+Example C02_text_ex_ebreak : C02_text_case 0x9002 CEbreak ["c.ebreak"] "c.ebreak" 0x02 0x90.
+Proof. vm_compute. repeat split. Qed.
+(* a separator style other than the usual one (clause 4): indentation, doubled commas, trailing blanks and a comment *)
+Example C02_text_ex_style :
+  let sty := {| LexSep.indent := chars "  "; LexSep.gaps := [chars " "; chars ",,"; chars "  "]; LexSep.comment := Some (chars " hi") |} in
+  let l := {| Items.lfile := "prog.asm"; Items.lnum := 7 |} in
+  LexSep.style_ok sty (map chars (ctext (CAddi 5 (-3)))) /\
+  unchars (LexSep.render sty (map chars (ctext (CAddi 5 (-3))))) = "  c.addi x5,,-3  # hi" /\
+  Program.assemble_text [(l, "  c.addi x5,,-3  # hi")] [] [] true =
+    Program.TDone {| Passes.r_chunks := [(l, Passes.CBytes [0xf5; 0x12])]; Passes.r_consts := []; Passes.r_labels := [] |}.
+Proof.
+  cbv zeta. split; [|vm_compute; split; reflexivity].
+  unfold LexSep.style_ok. cbn. split; [repeat constructor|]. split; [reflexivity|].
+  split; [repeat constructor|]. split; [left; discriminate|].
+  split; [repeat constructor|]. split; [left; discriminate|].
+  split; [repeat constructor|]. split; exact I.
+Qed.
+
+(* The documented alternative spellings of the same instructions assemble to the same two bytes (token level, and from the characters in
+   any separator style -- e.g. `c.lw x8, 4(x9)`, where the gaps next to a parenthesis may be empty):
+   (a) c.lw rd', uimm(rs1') and c.sw rs2', uimm(rs1') (Spec/Print16.v ctext_paren: six tokens, the parentheses are tokens);
+   (b) c.lui with a NEGATIVE value written as the 20-bit number 0xfffe0 .. 0xfffff (lower-case hexadecimal). *)
+Theorem C02_text_paren :
+  forall (l : Items.line) (cmp : bool) h c toks, 0 <= h < 65536 -> decode16 h = Some c -> ctext_paren c = Some toks ->
+    let bytes := {| Passes.r_chunks := [(l, Passes.CBytes [h mod 256; h / 256])]; Passes.r_consts := []; Passes.r_labels := [] |} in
+    (exists it, Parser.parse_item l toks = Parser.FOk it /\ Passes.assemble_items [(l, it)] [] [] cmp = Passes.Done bytes) /\
+    (forall sty, LexSep.style_ok sty (map chars toks) ->
+       Program.assemble_text [(l, unchars (LexSep.render sty (map chars toks)))] [] [] cmp = Program.TDone bytes).
+Proof. exact TextConverse.paren_converse. Qed.
+Print Assumptions C02_text_paren.
+Theorem C02_text_lui_hex :
+  forall (l : Items.line) (cmp : bool) h rd i, 0 <= h < 65536 -> decode16 h = Some (CLui rd i) -> i < 0 ->
+    let bytes := {| Passes.r_chunks := [(l, Passes.CBytes [h mod 256; h / 256])]; Passes.r_consts := []; Passes.r_labels := [] |} in
+    (exists it, Parser.parse_item l (ctext_lui_hex rd i) = Parser.FOk it /\ Passes.assemble_items [(l, it)] [] [] cmp = Passes.Done bytes) /\
+    (forall sty, LexSep.style_ok sty (map chars (ctext_lui_hex rd i)) ->
+       Program.assemble_text [(l, unchars (LexSep.render sty (map chars (ctext_lui_hex rd i))))] [] [] cmp = Program.TDone bytes).
+Proof. exact TextConverse.lui_hex_converse. Qed.
+Print Assumptions C02_text_lui_hex.
+Example C02_text_ex_paren :
+  let l := {| Items.lfile := "<string>"; Items.lnum := 1 |} in
+  decode16 0x40c0 = Some (CLw 8 9 4) /\ ctext_paren (CLw 8 9 4) = Some ["c.lw"; "x8"; "4"; "("; "x9"; ")"] /\
+  Lexer.lex_tokens "c.lw x8, 4(x9)" = Some ["c.lw"; "x8"; "4"; "("; "x9"; ")"] /\
+  Program.assemble_text [(l, "c.lw x8, 4(x9)")] [] [] true =
+    Program.TDone {| Passes.r_chunks := [(l, Passes.CBytes [0xc0; 0x40])]; Passes.r_consts := []; Passes.r_labels := [] |} /\
+  decode16 0xc044 = Some (CSw 8 9 4) /\ ctext_paren (CSw 8 9 4) = Some ["c.sw"; "x9"; "4"; "("; "x8"; ")"] /\
+  Program.assemble_text [(l, "c.sw x9, 4(x8)")] [] [] false =
+    Program.TDone {| Passes.r_chunks := [(l, Passes.CBytes [0x44; 0xc0])]; Passes.r_consts := []; Passes.r_labels := [] |}.
+Proof. vm_compute. repeat split. Qed.
+Example C02_text_ex_lui_hex :
+  let l := {| Items.lfile := "<string>"; Items.lnum := 1 |} in
+  decode16 0x7281 = Some (CLui 5 (-32)) /\ ctext_lui_hex 5 (-32) = ["c.lui"; "x5"; "0xfffe0"] /\
+  Program.assemble_text [(l, "c.lui x5, 0xfffe0")] [] [] true =
+    Program.TDone {| Passes.r_chunks := [(l, Passes.CBytes [0x81; 0x72])]; Passes.r_consts := []; Passes.r_labels := [] |} /\
+  Program.assemble_text [(l, "c.lui x5, -32")] [] [] true =
+    Program.TDone {| Passes.r_chunks := [(l, Passes.CBytes [0x81; 0x72])]; Passes.r_consts := []; Passes.r_labels := [] |}.
+Proof. vm_compute. repeat split. Qed.
